@@ -552,6 +552,23 @@ fn update_run(f: &Fields, inject: bool) -> UpdateRun {
                 if get(f, "ftarget") == "rebuilt" { reb.fail(at, kind, only) } else { orig.fail(at, kind, only) }
             }
         }
+        if get(f, "path") == "1" {
+            // the path API itself (`metadata::update`): source and destination are the same file on disk
+            let p = std::env::temp_dir().join(format!("flacverif_update_{}_{}.flac", std::process::id(), i));
+            let r: Result<bool, flac_codec::Error> = std::fs::write(&p, &file)
+                .map_err(flac_codec::Error::Io)
+                .and_then(|()| flac_codec::metadata::update(&p, |bl| apply_script(bl, sc)));
+            let after = std::fs::read(&p).unwrap_or_default();
+            let _ = std::fs::remove_file(&p);
+            match r {
+                Ok(false) => run.steps.push("inplace".to_string()),
+                Ok(true) => run.steps.push("rebuilt".to_string()),
+                Err(e) => run.steps.push(format!("ERR:{}", errclass(&e))),
+            }
+            file = after;
+            run.lens.push(file.len());
+            continue;
+        }
         let reb2 = reb.clone();
         let mut opened = false;
         let r = flac_codec::metadata::update_file(
@@ -585,7 +602,7 @@ fn update_run(f: &Fields, inject: bool) -> UpdateRun {
     run
 }
 
-/// `update file=HEX edits=s1|s2|…  [failat=N fkind=perm|once|intr|short fonly=wfsr fstep=K ftarget=orig|rebuilt]`
+/// `update file=HEX edits=s1|s2|…  [path=1] [failat=N fkind=perm|once|intr|short fonly=wfsr fstep=K ftarget=orig|rebuilt]`
 pub fn update(f: &Fields) -> String {
     let run = update_run(f, true);
     let mut out = format!(
@@ -596,6 +613,12 @@ pub fn update(f: &Fields) -> String {
         run.tripped as u8,
         run.calls
     );
+    if let Some(nfr) = opt_num::<usize>(f, "frames") {
+        // the audio behind the metadata, compared here because long files are only reported as a hash
+        let orig = unhex(get(f, "file"));
+        let same = nfr <= orig.len() && nfr <= run.file.len() && orig[orig.len() - nfr..] == run.file[run.file.len() - nfr..];
+        out.push_str(&format!(" tailsame={}", same as u8));
+    }
     if f.contains_key("failat") {
         // the same history without the fault: what a complete result looks like
         let clean = update_run(f, false);
